@@ -216,7 +216,7 @@ def idx_type(idx):
         return None
     if idx['k'] == 'std':
         return idx['t']
-    return ('daqmx', idx['dtype'], tuple((s[4], s[0]) for s in idx['scalers']))
+    return ('daqmx', idx['dtype'], tuple(sorted((s[4], s[0]) for s in idx['scalers'])))   # the order of the scaler records carries no meaning
 
 
 def idx_bytes(idx):
